@@ -149,7 +149,7 @@ func obsE2eTerm(e *e2eResp) string {
 }
 
 // ---- generator
-var genIdle bool
+var genIdle, genNullish bool
 var genPctSet = []int{0, 1}
 
 var e2eCountPool = []int64{1, 1, 3, 7, 1000, 1 << 31, 1 << 40, 1 << 50}
@@ -175,10 +175,23 @@ func genVal(r *lib.Rand) float64 {
 	return e2eValPool[r.Intn(len(e2eValPool))]
 }
 
+// e2eNulls: does a block carry null entries
+func e2eNulls(b *GE2e) bool {
+	if b == nil || b.Null {
+		return false
+	}
+	for _, p := range b.Pcts {
+		if p.Null {
+			return true
+		}
+	}
+	return false
+}
+
 // a block as a node of the current cluster serves it: mostly the cluster's percentile set,
 // sometimes another (a node configured differently), in any order; the window empty (count 0)
 // on every node of an idle cluster and on a good share of the nodes otherwise
-func genE2e(r *lib.Rand, nullEntries, repeats bool) *GE2e {
+func genE2e(r *lib.Rand, repeats bool) *GE2e {
 	switch {
 	case r.Chance(22):
 		return nil
@@ -210,22 +223,32 @@ func genE2e(r *lib.Rand, nullEntries, repeats bool) *GE2e {
 	if repeats && len(set) > 0 && r.Chance(6) { // the same quantile twice
 		e.Pcts = append(e.Pcts, GPct{Q: set[0], Val: genVal(r)})
 	}
-	if nullEntries && r.Chance(8) {
-		at := r.Intn(len(e.Pcts) + 1)
-		e.Pcts = append(e.Pcts[:at:at], append([]GPct{{Null: true}}, e.Pcts[at:]...)...)
+	// null entries (the decoder drops them): one or two among the real ones, or nothing but nulls;
+	// in a "nullish" cluster every block has them (the same channel on many nodes, all with nulls)
+	switch {
+	case r.Chance(4):
+		e.Pcts = []GPct{{Null: true}, {Null: true}}[:1+r.Intn(2)]
+	case genNullish || r.Chance(12):
+		for k := 1 + r.Intn(2); k > 0; k-- {
+			at := r.Intn(len(e.Pcts) + 1)
+			e.Pcts = append(e.Pcts[:at:at], append([]GPct{{Null: true}}, e.Pcts[at:]...)...)
+		}
 	}
 	return e
 }
 
 // tags: the blocks behind the aggregates of a view
 func (e *viewEnv) e2eTags(topic, channel string) []string {
-	blocks, zero, positive := 0, 0, 0
+	blocks, zero, positive, withNulls := 0, 0, 0, 0
 	sets := map[string]bool{}
 	see := func(b *GE2e) {
 		if b == nil || b.Null {
 			return
 		}
 		blocks++
+		if e2eNulls(b) {
+			withNulls++
+		}
 		if b.Count == 0 {
 			zero++
 		} else {
@@ -272,7 +295,16 @@ func (e *viewEnv) e2eTags(topic, channel string) []string {
 	if blocks > 4 {
 		nb = "5+"
 	}
-	return []string{"e2e_blocks=" + nb, "e2e_counts=" + total, fmt.Sprintf("e2e_percentile_sets=%d", len(sets))}
+	nulls := "none"
+	switch {
+	case withNulls > 0 && withNulls == blocks:
+		nulls = "all-blocks"
+	case withNulls > 1:
+		nulls = "several-blocks"
+	case withNulls == 1:
+		nulls = "one-block"
+	}
+	return []string{"e2e_blocks=" + nb, "e2e_counts=" + total, fmt.Sprintf("e2e_percentile_sets=%d", len(sets)), "e2e_null_entries=" + nulls}
 }
 
 // ---- the real Add, directly
@@ -300,6 +332,10 @@ func runE2eAdd(o *lib.Out, in AddIn) {
 			cs := &verifshim.ChannelStats{ChannelName: "c", E2eProcessingLatency: realE2e(b)}
 			if i == 0 && in.Raw {
 				acc = cs // TopicStats.Add: t.Channels = append(t.Channels, aChannelStats)
+				if in.HandNil > 0 && cs.E2eProcessingLatency != nil {
+					// nil maps no decoder produces: put there by hand
+					cs.E2eProcessingLatency.Percentiles = append(make([]map[string]float64, in.HandNil), cs.E2eProcessingLatency.Percentiles...)
+				}
 				continue
 			}
 			if acc == nil {
@@ -356,10 +392,14 @@ func runE2eAdd(o *lib.Out, in AddIn) {
 	case positive > 0:
 		counts = "all-positive"
 	}
-	coq := fmt.Sprintf("(J18.CE2eAdd %s [%s] %s %s %s)", lib.CoqBool(in.Raw), strings.Join(terms, ";"), lib.CoqBool(panicked), lib.CoqBool(!fin), got)
+	handNil := 0
+	if in.Raw && len(in.Blocks) > 0 && in.Blocks[0] != nil && !in.Blocks[0].Null {
+		handNil = in.HandNil
+	}
+	coq := fmt.Sprintf("(J18.CE2eAdd %s %s [%s] %s %s %s)", lib.CoqBool(in.Raw), lib.CoqNat(handNil), strings.Join(terms, ";"), lib.CoqBool(panicked), lib.CoqBool(!fin), got)
 	o.Emit(lib.Case{Name: in.Name, Coq: coq, Input: in, Nontrivial: true,
 		Tags: []string{"fn=e2eadd", fmt.Sprintf("raw_receiver=%v", in.Raw), fmt.Sprintf("nodes=%d", len(in.Blocks)), "e2e_counts=" + counts,
-			fmt.Sprintf("e2e_percentile_sets=%d", len(sets)), fmt.Sprintf("null_entries=%v", nulls), fmt.Sprintf("panicked=%v", panicked), fmt.Sprintf("finite=%v", fin)},
+			fmt.Sprintf("e2e_percentile_sets=%d", len(sets)), fmt.Sprintf("null_entries=%v", nulls), fmt.Sprintf("hand_made_nil_maps=%d", handNil), fmt.Sprintf("panicked=%v", panicked), fmt.Sprintf("finite=%v", fin)},
 		Obs: map[string]interface{}{"panicked": panicked, "finite": fin}})
 }
 
@@ -429,9 +469,10 @@ func e2eMatrix(r *lib.Rand, n int) []AddIn {
 		}
 		ins = append(ins, in)
 	}
-	// null entries: in a fresh receiver they read as quantile 0 / count 0; in a first-node
-	// receiver they stay nil maps, and an element that selects one (another null entry, an
-	// entry for quantile 0) makes the assignment panic
+	// null entries are dropped by the decoder, whatever the receiver: all-null lists on every
+	// node (F19), a null entry against a quantile-0 entry (F19), nulls mixed with real entries;
+	// the same with a nil map put into the first-node receiver by hand -- an element for
+	// quantile 0 selects it and the assignment panics, any other does not
 	null, half, zeroQ := GPct{Null: true}, GPct{Q: 1, Val: 400}, GPct{Q: 5, Val: 7}
 	for i, bl := range [][]*GE2e{
 		{{Count: 1, Pcts: []GPct{null}}, {Count: 1, Pcts: []GPct{null}}},
@@ -439,17 +480,19 @@ func e2eMatrix(r *lib.Rand, n int) []AddIn {
 		{{Count: 1, Pcts: []GPct{null}}, {Count: 1, Pcts: []GPct{zeroQ}}},
 		{{Count: 0, Pcts: []GPct{half, null}}, {Count: 0, Pcts: []GPct{null, zeroQ}}, {Count: 3, Pcts: []GPct{zeroQ, half}}},
 		{{Count: 2, Pcts: []GPct{half}}, {Count: 1, Pcts: []GPct{null}}},
+		{{Count: 1, Pcts: []GPct{null, null}}, {Count: 0, Pcts: []GPct{null}}, {Count: 4, Pcts: []GPct{null, null}}},
 	} {
 		for _, raw := range []bool{false, true} {
 			ins = append(ins, AddIn{Kind: "e2eadd", Raw: raw, Blocks: bl, Name: fmt.Sprintf("e2e-null-%d-raw%v", i, raw)})
 		}
+		ins = append(ins, AddIn{Kind: "e2eadd", Raw: true, HandNil: 1 + i%2, Blocks: bl, Name: fmt.Sprintf("e2e-handnil-%d", i)})
 	}
 	for k := 0; k < n; k++ {
 		in := AddIn{Kind: "e2eadd", Raw: r.Bool(), Name: fmt.Sprintf("e2e-rand-%d", k)}
-		genIdle, genPctSet = r.Chance(25), genPercentileSet(r)
+		genIdle, genNullish, genPctSet = r.Chance(25), r.Chance(20), genPercentileSet(r)
 		neg := r.Chance(25)
 		for i := r.Intn(5); i >= 0; i-- {
-			b := genE2e(r, true, !in.Raw)
+			b := genE2e(r, !in.Raw)
 			if neg && b != nil && !b.Null && r.Chance(50) {
 				// counts are not validated by the decoder: small negative ones
 				b.Count = -int64(1 + r.Intn(3))
@@ -474,4 +517,49 @@ func e2eMatrix(r *lib.Rand, n int) []AddIn {
 		ins = append(ins, in)
 	}
 	return ins
+}
+
+// ---- recorded witnesses for the view profile (also in corpus/C18.json)
+// F19 (repaired by dc56edf): null percentile entries in the blocks of a channel several nodes
+// (or one node twice) have -- the topic view's merge assigned into the nil map the first
+// block kept and nsqadmin answered 500.  Now: 200 and the aggregate of the non-null entries.
+type viewWitness struct {
+	g     GCluster
+	views []string
+}
+
+func viewWitnesses() []viewWitness {
+	null := GPct{Null: true}
+	blk := func(count int64, ps ...GPct) *GE2e { return &GE2e{Count: count, Pcts: ps} }
+	node := func(host string, chans ...GChan) GNsqd {
+		return GNsqd{Hostname: host, Topics: []GTopic{{Name: "orders", Num: [6]int64{5, 1, 9, 0, 0, 0}, Channels: chans, E2e: blk(1, null)}}}
+	}
+	ch := func(e *GE2e) GChan { return GChan{Name: "ch", Num: [11]int64{2, 0, 1, 0, 0, 0, 7, 0, 0, 0, 1}, E2e: e} }
+	prods := func(ns ...string) []GProducer {
+		var ps []GProducer
+		for i, n := range ns {
+			ps = append(ps, GProducer{Node: n, Hostname: fmt.Sprintf("w%d", i), Remote: fmt.Sprintf("10.7.0.%d:4150", i), Topics: []string{"orders"}, Tombs: []bool{false}})
+		}
+		return ps
+	}
+	var ws []viewWitness
+	// two nodes, both "percentiles":[null] for the same channel (direct mode)
+	g := GCluster{Name: "F19-two-nodes-null-percentiles", Nsqds: []string{"N0", "N1"}, Topic: "orders", Channel: "ch", Node: "N0"}
+	g.N[0], g.N[1] = node("w0", ch(blk(1, null))), node("w1", ch(blk(1, null)))
+	ws = append(ws, viewWitness{g, []string{"topic", "channel"}})
+	// a null entry in the first block, an entry for quantile 0 in the other (lookupd mode), both orders of the nodes
+	g = GCluster{Name: "F19-null-entry-and-quantile-0", Lookupds: []string{"L0"}, Topic: "orders", Channel: "ch", Node: "N0"}
+	g.N[0] = node("w0", ch(blk(1, null, GPct{Q: 1, Val: 400})))
+	g.N[1] = node("w1", ch(blk(2, GPct{Q: 5, Val: 7})))
+	g.N[2] = node("w2", ch(blk(0, null, null)))
+	g.L[0].Producers = prods("N0", "N1", "N2")
+	ws = append(ws, viewWitness{g, []string{"topic", "channel"}})
+	g.Name = "F19-quantile-0-and-null-entry"
+	g.N[0], g.N[1] = g.N[1], g.N[0]
+	ws = append(ws, viewWitness{g, []string{"topic", "channel"}})
+	// one node listing the channel twice, null entries in both
+	g = GCluster{Name: "F19-one-node-channel-twice", Nsqds: []string{"N0"}, Topic: "orders", Channel: "ch", Node: "N0"}
+	g.N[0] = node("w0", ch(blk(3, null, GPct{Q: 0, Val: 1200})), ch(blk(0, null)))
+	ws = append(ws, viewWitness{g, []string{"topic", "channel"}})
+	return ws
 }
